@@ -122,20 +122,25 @@ Qed.
 Lemma g_consts_eq : g_CREATE_COLOR = rf_req_defcolor /\ g_FOREGROUND = rf_req_fg /\ g_BACKGROUND = rf_req_bg.
 Proof. repeat split; reflexivity. Qed.
 
-Lemma g_is_bright_eq c : g_is_bright c = Some (rf_is_bright c).
+Definition rf_color_opt_ok (c : option color) : Prop := match c with Some c => color_ok c | None => True end.
+
+(* Whatever the spelling (`if let` + `matches!` = a boolean of N.eqb tests under the constructor; one nested `matches!` = an `if` on
+   the same tests; anstyle's own `color.is_bright()` inlined = a 16-arm if-chain that answers [None] above 15): decided per colour,
+   by computation.  As everywhere in this area the lemma carries the typing of the argument ([color_ok]: an AnsiColor is below 16);
+   the entry point needs none ([rf_style_of_ok]). *)
+Lemma g_is_bright_eq c : color_ok c -> g_is_bright c = Some (rf_is_bright c).
 Proof.
-  unfold g_is_bright. destruct c as [a|i|c]; try reflexivity. cbn [rf_is_bright]. do 2 f_equal.
-  destruct (N.ltb_spec a 16) as [H|H].
-  - pose proof (rf_lt16_In a H) as HI. cbn [In] in HI.
-    repeat (destruct HI as [<-|HI]; [reflexivity|]). destruct HI.
-  - rewrite nth_overflow by (unfold rf_bright_tab; cbn [length]; lia).
-    repeat match goal with |- context [N.eqb a ?k] => destruct (N.eqb_spec a k); [lia|] end. reflexivity.
+  intros Hc. unfold g_is_bright. destruct c as [a|i|c]; try reflexivity. cbn [rf_is_bright]. cbn [color_ok] in Hc.
+  pose proof (rf_lt16_In a Hc) as HI. cbn [In] in HI.
+  repeat (destruct HI as [<-|HI]; [reflexivity|]). destruct HI.
 Qed.
 
-Lemma g_has_bright_fg_eq st : g_has_bright_fg st = Some (rf_has_bright_fg st).
+(* `.as_ref().map(is_bright).unwrap_or(false)` | `matches!(.., Some(c) if is_bright(&c))` | a `match`: the slot is destructed, the
+   call rewritten, the rest is a case analysis on its answer *)
+Lemma g_has_bright_fg_eq st : rf_color_opt_ok (ry_fg st) -> g_has_bright_fg st = Some (rf_has_bright_fg st).
 Proof.
-  unfold g_has_bright_fg, rf_has_bright_fg. destruct (ry_fg st) as [c|]; cbn [rf_opt_map_m]; [|reflexivity].
-  rewrite g_is_bright_eq. reflexivity.
+  intros H. unfold g_has_bright_fg, rf_has_bright_fg. cbv zeta. destruct (ry_fg st) as [c|]; cbn [rf_opt_map_m]; [|reflexivity].
+  cbn [rf_color_opt_ok] in H. rewrite (g_is_bright_eq c H). destruct (rf_is_bright c); reflexivity.
 Qed.
 
 Lemma g_ansi_color_to_roff_eq a : a < 16 -> g_ansi_color_to_roff a = Some (rf_ansi_name a).
@@ -163,8 +168,6 @@ Qed.
 (* the document after the call = the document before ++ the lines the hand model answers *)
 Definition rf_push (doc : list rf_line) (o : option (list rf_line)) : option (list rf_line) :=
   match o with Some ls => Some (doc ++ ls) | None => None end.
-
-Definition rf_color_opt_ok (c : option color) : Prop := match c with Some c => color_ok c | None => True end.
 
 Lemma g_add_color_direct_eq fuel doc req c :
   match c with Some (Ansi256 _) => False | _ => rf_color_opt_ok c end ->
@@ -203,22 +206,33 @@ Proof.
     rewrite g_add_color_direct_eq by (cbn; repeat split; assumption). reflexivity.
 Qed.
 
+(* set_color is a private helper: HOW it receives the two colours is the maintainers' business (the pair of references of the
+   `ColorSet` alias | the style itself | two arguments).  The lemma is about the helper AS to_roff CALLS IT for a style: the first
+   of the call conventions that typechecks against the translation (the statement is the same term as before for the pair). *)
+Definition g_set_color_call (st : rf_style) (doc : list rf_line) : option (list rf_line) :=
+  ltac:(first [ exact (g_set_color (ry_fg st, ry_bg st) doc)
+              | exact (g_set_color st doc)
+              | exact (g_set_color (ry_fg st) (ry_bg st) doc) ]).
+
 Lemma g_set_color_eq st doc : rf_color_opt_ok (ry_fg st) -> rf_color_opt_ok (ry_bg st) ->
-  g_set_color (ry_fg st, ry_bg st) doc = rf_push doc (rf_set_color st).
+  g_set_color_call st doc = rf_push doc (rf_set_color st).
 Proof.
-  intros Hf Hb. unfold g_set_color, rf_set_color. cbn [fst snd]. destruct g_consts_eq as [_ [-> ->]].
+  intros Hf Hb. unfold g_set_color_call, g_set_color, rf_set_color. cbn [fst snd]. destruct g_consts_eq as [_ [-> ->]].
   rewrite (g_add_color_to_roff_eq _ _ _ Hf). destruct (rf_add_color rf_req_fg (ry_fg st)) as [a|]; [|reflexivity].
   cbn [rf_push]. cbv zeta. rewrite (g_add_color_to_roff_eq _ _ _ Hb).
   destruct (rf_add_color rf_req_bg (ry_bg st)) as [b|]; [|reflexivity].
   cbn [rf_push]. rewrite app_assoc. reflexivity.
 Qed.
 
-Lemma g_set_effects_and_text_eq s doc :
+Lemma g_set_effects_and_text_eq s doc : rf_color_opt_ok (ry_fg (rfs_style s)) ->
   g_set_effects_and_text s doc = Some (doc ++ [rf_effects_and_text (rfs_style s) (rfs_text s)]).
 Proof.
-  unfold g_set_effects_and_text, rf_effects_and_text. cbv zeta. rewrite g_has_bright_fg_eq.
-  destruct (e_contains (ry_effects (rfs_style s)) eff_bold || rf_has_bright_fg (rfs_style s)); [reflexivity|].
-  destruct (e_contains (ry_effects (rfs_style s)) eff_italic); reflexivity.
+  intros Hfg.
+  (* three `doc.text(..)` calls in an if-chain | one call on an `if` expression; `|` (has_bright_fg always called) | `||` (called
+     when not bold): the call is rewritten wherever it stands, then the three booleans decide *)
+  unfold g_set_effects_and_text, rf_effects_and_text. cbv zeta. rewrite ?(g_has_bright_fg_eq _ Hfg).
+  destruct (e_contains (ry_effects (rfs_style s)) eff_bold); destruct (rf_has_bright_fg (rfs_style s));
+    destruct (e_contains (ry_effects (rfs_style s)) eff_italic); reflexivity.
 Qed.
 
 (* the colours a styled slice of the hand model carries are AnsiColor values *)
@@ -241,11 +255,13 @@ Proof.
   { induction slices as [|[g text] rest IH]; intros doc Hwf.
     - cbn [map for_list0 rf_doc_lines rf_push]. rewrite app_nil_r. reflexivity.
     - inversion Hwf as [|x l Hx Hl]; subst. destruct (rf_style_of_ok g Hx) as [Hf Hb].
-      cbn [map for_list0 rf_doc_lines]. unfold step at 1. unfold rf_styled_of at 1 2 3 4. cbn [fst snd rfs_style rfs_text].
+      cbn [map for_list0 rf_doc_lines]. set (R := map rf_styled_of rest). unfold step at 1.
+      unfold rf_styled_of. cbn [fst snd rfs_style rfs_text].      (* every use of the head slice, however many the body makes *)
+      match goal with |- context [g_set_color ?a ?d] => change (g_set_color a d) with (g_set_color_call (rf_style_of g) d) end.
       rewrite (g_set_color_eq (rf_style_of g) doc Hf Hb).
       destruct (rf_set_color (rf_style_of g)) as [cl|]; [|reflexivity]. cbn [rf_push]. cbv zeta.
-      rewrite g_set_effects_and_text_eq. cbn [rfs_style rfs_text].
-      rewrite (IH _ Hl). destruct (rf_doc_lines rest) as [tl|]; [|reflexivity].
+      rewrite g_set_effects_and_text_eq by (cbn [rfs_style]; exact Hf). cbn [rfs_style rfs_text].
+      subst R. rewrite (IH _ Hl). destruct (rf_doc_lines rest) as [tl|]; [|reflexivity].
       cbn [rf_push]. rewrite <- !app_assoc. reflexivity. }
   rewrite (L _ _ (rf_categorise_wf input)). unfold rf_roff_new.
   destruct (rf_doc_lines (rf_categorise input)); reflexivity.
